@@ -543,6 +543,37 @@ class Body:
                     out.append(f"{short_name(c.callee)}(" + ",".join(self.root(a) for a in c.args) + ")")
         return out
 
+    def mut_uses(self, local):
+        """Places where the value held in `local` can be modified in place: assignments to a
+        projection of it and `&mut` borrows of it or of a part of it (the borrow is then handed
+        to a call such as `Vec::retain`).  The (re)definitions of the whole local are not
+        included (see `defs`).  Returns [(bb, line, what)]."""
+        out = []
+        for i, j, p, rv, line in self.assigns():
+            if place_local(p) == local and place_proj(p):
+                out.append((i, line, f"assign {self.place_root(p)}"))
+            if rv[0] == "ref" and rv[1] == "mut" and place_local(rv[2]) == local:
+                out.append((i, line, f"&mut {self.place_root(rv[2])}"))
+        return out
+
+    def move_chain(self, op):
+        """Locals a moved/copied operand passed through (`_5 = move _4; _4 = move _3`), newest
+        first, following single definitions that are plain uses."""
+        out = []
+        l = op_local(op)
+        seen = set()
+        while l is not None and l not in seen:
+            seen.add(l)
+            out.append(l)
+            ds = self.defs.get(l, [])
+            if len(ds) == 1 and ds[0][0] == "stmt" and ds[0][4][0] == "use" and \
+                    not place_proj(ds[0][3]) and ds[0][4][1][0] in ("m", "c") and \
+                    "|" not in ds[0][4][1][1]:
+                l = op_local(ds[0][4][1])
+            else:
+                break
+        return out
+
     def tuple_field_def_roots(self, root):
         """For a root that stopped at a multiply-defined tuple temporary (`_773.1`: a
         `let (a, b) = if .. {(x, y)} else {(x', y')}` join), the roots of that field in every
